@@ -51,6 +51,11 @@ def deviations():
     devs += [dict(verbose=1), dict(verbose=2)]
     # a non-uniform grid (radii and angles) loaded from files, as a user with an own mesh supplies it
     devs += [dict(gridfile=6)]
+    # other geometry parameters than the shipped defaults, one of them orientation reversing (det DF < 0 everywhere for Shafranov
+    # with kappa > 1), and an annulus with a large hole
+    # (kappa_eps / delta_e mean different things per geometry: '_geom' restricts a deviation to cores with that geometry)
+    devs += [dict(kappa=1.5, delta=0.1, _geom=1), dict(kappa=0.1, delta=0.05, _geom=1), dict(kappa=0.1, delta=1.0, _geom=2), dict(R0=0.1),
+             dict(R0=1e-2, Rmax=1.0)]
     return devs
 
 
@@ -74,8 +79,9 @@ def enumerate_cases(tier):
     cores = [dict(), dict(geom=1, prob=2, alpha=2, beta=1, strat=1, extr=1), dict(geom=2, prob=1, alpha=3, beta=0, dirbc=1, extr=3, cycle=1),
              dict(geom=2, prob=2, alpha=3, beta=1, strat=1, extr=1, cycle=2), dict(geom=1, prob=0, alpha=0, beta=0, dirbc=1, strat=1),
              dict(geom=0, prob=2, alpha=2, beta=0, extr=1, cycle=1)]
-    devs = deviations()
+    all_devs = deviations()
     for ci, core in enumerate(cores):
+        devs = [{k: v for k, v in d.items() if k != "_geom"} for d in all_devs if d.get("_geom", core.get("geom", 0)) == core.get("geom", 0)]
         for d in devs:
             c = base(**core)
             c.update(d)
@@ -99,6 +105,8 @@ def enumerate_cases(tier):
     if tier == "thorough":
         # deviation bound 3 from every core
         for ci in range(len(cores)):
+            g = cores[ci].get("geom", 0)
+            devs = [{k: v for k, v in d.items() if k != "_geom"} for d in all_devs if d.get("_geom", g) == g]
             for d1, d2, d3 in itertools.combinations(devs, 3):
                 if (set(d1) & set(d2)) or (set(d1) & set(d3)) or (set(d2) & set(d3)):
                     continue
